@@ -57,6 +57,7 @@ func (c10) Gen(r *rand.Rand, tier string, idx int) *core.Plan {
 	if idx%4 == 3 {
 		p.World["stack"] = 1
 		p.World["remote"] = int64(r.IntN(2)) // present the store as a remote registry (two endpoints)
+		p.World["decoy"] = int64(r.IntN(2))  // a wildcard statement of the opposite disposition listed first
 	}
 	switch r.IntN(8) {
 	case 0:
